@@ -146,6 +146,16 @@ def handle (line : String) : String :=
     match (ops.splitOn ";").mapM parseOp with
     | some l => ";".intercalate (runSym (symFile (kind = "eager") names) {} l)
     | none => "bad-op"
+  | ["hist2", kind, sheets, lm, lt, ops] =>
+    -- as `hist`, with what `load_merged_regions()` / `load_tables()` return on this file (`ok` or the error text)
+    let names := if sheets = "sheets=" then [] else (sheets.drop 7).toString.splitOn ","
+    match (ops.splitOn ";").mapM parseOp with
+    | some l =>
+      let F := { symFile (kind = "eager") names with
+                 loadMergedErr := if lm = "ok" then none else some lm,
+                 loadTablesErr := if lt = "ok" then none else some lt }
+      ";".intercalate (runSym F {} l)
+    | none => "bad-op"
   | ["dconv", w] => handleDconv w
   | ws => (handleAuto ws).getD "bad-op"
 
